@@ -39,11 +39,14 @@ func init() {
 		Assumptions: []string{
 			"hang = one input consuming more than 30 CPU-seconds; network access is impossible (reader overridden by an in-memory file system)",
 		},
-		Shards: func(string) int { return 16 + len(c20CrashProbes()) + 1 }, // 16 workload shards + one process per crash probe + the file entry points
+		Shards: func(string) int { return 16 + len(c20CrashProbes()) + 1 + len(c20HangProbes()) }, // 16 workload shards + one process per crash probe + the file entry points + one process per hang probe
 		Run:    runC20,
 		CrashFeatures: func(caseDesc string) map[string]string {
 			if strings.Contains(caseDesc, "probe:nonproductive-schema-cycle") {
 				return map[string]string{"probe": "nonproductive-schema-cycle"}
+			}
+			if strings.Contains(caseDesc, "probe:composition-dag-exponential") {
+				return map[string]string{"probe": "composition-dag-exponential"}
 			}
 			return nil
 		},
@@ -65,6 +68,7 @@ func runC20(c *core.Ctx) {
 	const workShards = 16
 	if c.Shard >= workShards {
 		probes := c20CrashProbes()
+		hangs := c20HangProbes()
 		if i := c.Shard - workShards; i < len(probes) {
 			in := probes[i]
 			in.origin = "probe:nonproductive-schema-cycle " + in.origin
@@ -72,6 +76,11 @@ func runC20(c *core.Ctx) {
 			c20Run(c, in)
 		} else if i == len(probes) {
 			c20Files(c)
+		} else if j := i - len(probes) - 1; j < len(hangs) {
+			in := hangs[j]
+			in.origin = "probe:composition-dag-exponential " + in.origin
+			c.Cover("probes", in.origin)
+			c20Run(c, in)
 		}
 		return
 	}
